@@ -28,6 +28,9 @@ RULE = (
     "0 <= column <= length of that line + 1); the call returns within 10 s of CPU time and a 60 s wall-clock watchdog; afterwards "
     "the worker has no child process.  distinct_nontrivial = distinct (verdict kind, error class) x input pairs."
 )
+RULE += (
+    ' The adversarial set includes constant expressions whose exact value is astronomically large (9 ** 9 ** 9): a verdict is due at once.'
+)
 ASSUME = [
     "a terminating constexpr function may legitimately be reported as 'Timeout' when the machine is loaded (1 s limit inside the compiler); both verdicts are well-formed and accepted",
     "error positions are judged against the main module's text, or the longest module when several are submitted",
@@ -242,6 +245,10 @@ CX_BODIES = {
 def adversarial():
     A = []
     a = lambda s, o=None: A.append((s, dict(comp.DEFAULTS, **(o or {}))))
+    # constant expressions whose exact value is astronomically large: folding must give a verdict at once (overflow error or inf), not
+    # start exact big-integer arithmetic
+    for s in ["db.Setting = 9 ** 9 ** 9\n", "x = 7 ** 7 ** 7 ** 7\ndb.Setting = x\n", "K = 12345 ** 6789 ** 1011\nif K > 1:\n    db.On = 1\n", "db.Setting = 1 << 10 ** 12\n"]:
+        a(s)
     for s in ["", "\n", " ", "\t", "\x00", "x = 1\x00\n", "\ufeffdb.Setting = 1\n", "db.Setting = 1\r\ndb.On = 2\r\n", "db.Setting = 1\r", "\tdb.Setting = 1\n", "x = '\ud800'\n", "# \udc00\ndb.Setting = 1\n",
               "db.Setting = \udcff\n", "é = 1\ndb.Setting = é\n", "db.Setting = " + "-" * 3000 + "1\n", "db.Setting = " + "(" * 300 + "1" + ")" * 300 + "\n", "db.Setting = " + "1 + " * 2000 + "1\n",
               "db.Setting = " + "9" * 400 + "\n", "db.Setting = 1e999\n", "db.Setting = -1e999\n", "db.Setting = 1e-999\n", "db.Setting = 0x" + "f" * 40 + "\n", "db.Setting = 1j\n", "db.Setting = 1_000\n", "db.Setting = 0b101\n", "db.Setting = 0o17\n",
